@@ -348,3 +348,81 @@ func Sharded(r *Run, n int, body func(r *Run, shard, nshards int)) {
 		r.Violation(v.Sig, v.Key, v.Msg, v.Replay)
 	}
 }
+
+// MergeChild runs another check binary (e.g. the same check built with a different build tag) as a
+// single shard and merges what it covered and found into r.
+func MergeChild(r *Run, bin string, args []string, extraEnv ...string) error {
+	tmp := filepath.Join(drv.VerifDir(), ".build", "tmp")
+	os.MkdirAll(tmp, 0o755)
+	out := filepath.Join(tmp, fmt.Sprintf("%s-%d-child.gob", r.Prop, os.Getpid()))
+	defer os.Remove(out)
+	cmd := exec.Command(bin, args...)
+	cmd.Env = append(append(os.Environ(), "VERIF_SHARD=0/1", "VERIF_SHARD_OUT="+out), extraEnv...)
+	cmd.Stderr = os.Stderr
+	cmd.Stdout = os.Stderr
+	if err := cmd.Run(); err != nil {
+		return fmt.Errorf("child %s: %v", bin, err)
+	}
+	f, err := os.Open(out)
+	if err != nil {
+		return err
+	}
+	defer f.Close()
+	var d shardDump
+	if err := gob.NewDecoder(f).Decode(&d); err != nil {
+		return err
+	}
+	r.Evals += d.Evals
+	r.Transitions += d.Transitions
+	for _, h := range d.Distinct {
+		r.distinct[h] = struct{}{}
+	}
+	for _, h := range d.Nontrivial {
+		r.nontrivial[h] = struct{}{}
+	}
+	for _, s := range d.Samples {
+		r.Sample(s)
+	}
+	for _, c := range d.Caps {
+		r.Cap(c)
+	}
+	for k, v := range d.Counters {
+		r.counters[k] += v
+	}
+	for k, v := range d.Extra {
+		r.Extra[k] = v
+	}
+	for _, v := range d.Violations {
+		r.Violation(v.Sig, v.Key, v.Msg, v.Replay)
+	}
+	return nil
+}
+
+// ShardMode reports whether this process is a shard/child (its Finish writes a dump, not evidence).
+func ShardMode() bool { return os.Getenv("VERIF_SHARD") != "" }
+
+// FinishShard writes the dump for a child process and exits.
+func (r *Run) FinishShard() {
+	r.shardMode = true
+	d := shardDump{Evals: r.Evals, Transitions: r.Transitions, Samples: r.Samples, Caps: r.Caps, Counters: r.counters, Violations: r.shardViol, Extra: r.Extra}
+	for h := range r.distinct {
+		d.Distinct = append(d.Distinct, h)
+	}
+	for h := range r.nontrivial {
+		d.Nontrivial = append(d.Nontrivial, h)
+	}
+	f, err := os.Create(os.Getenv("VERIF_SHARD_OUT"))
+	if err != nil {
+		fmt.Fprintln(os.Stderr, "shard: ", err)
+		os.Exit(2)
+	}
+	if err := gob.NewEncoder(f).Encode(&d); err != nil {
+		fmt.Fprintln(os.Stderr, "shard: ", err)
+		os.Exit(2)
+	}
+	f.Close()
+	os.Exit(0)
+}
+
+// SetShardMode makes Violation() collect instead of print (child processes).
+func (r *Run) SetShardMode() { r.shardMode = true }
